@@ -48,7 +48,7 @@ fn gen_ae(w: &mut Tape) -> String {
     ["STORE-SCP", "A", "AE16CHARSAE16CHA", "ODD", ""][w.below(5) as usize].to_string()
 }
 
-fn gen_table(w: &mut Tape, env: &EnvRef, ts: &str) -> Result<FileMetaTable, Violation> {
+pub(crate) fn gen_table(w: &mut Tape, env: &EnvRef, ts: &str) -> Result<FileMetaTable, Violation> {
     let mut b = FileMetaTableBuilder::new()
         .media_storage_sop_class_uid(gen_uid(w))
         .media_storage_sop_instance_uid(gen_uid(w))
@@ -70,7 +70,12 @@ fn gen_table(w: &mut Tape, env: &EnvRef, ts: &str) -> Result<FileMetaTable, Viol
     }
     if w.chance(1, 3) {
         env.probe("private-information");
-        b = b.private_information_creator_uid(gen_uid(w));
+        // (the creator is conditionally required; the library also writes the information without it)
+        if w.chance(3, 4) {
+            b = b.private_information_creator_uid(gen_uid(w));
+        } else {
+            env.probe("private-information-without-creator");
+        }
         let n = w.below(9) as usize;
         let mut v = simcore::pattern_bytes(3, n);
         if let Some(l) = v.last_mut() {
@@ -188,6 +193,7 @@ fn run_file(w: &mut Tape, env: &EnvRef, by_path: bool) -> RunResult {
         latin1: false,
         utf8: false,
         other_cs: 0,
+        nested_charset: false,
     };
     let mut t2 = Tape::generate(w.below(1 << 20) as u64);
     let model = model_items_undef(&ds::gen_dataset(&mut t2, &gcfg));
